@@ -15,19 +15,40 @@ import (
 	"net"
 	"os"
 	"strings"
+	"sync"
 	"syscall"
 	"testing"
 	"time"
 )
 
+// vfFreePort returns a port of ip that is free for UDP and for TCP and that this process has not handed out before
+// (two probes in a row may otherwise be given the same ephemeral port, and a port free for UDP need not be free for TCP)
+var vfPortsGiven = map[string]bool{}
+var vfPortsMu sync.Mutex
+
 func vfFreePort(t testing.TB, ip string) int {
-	l, err := net.ListenUDP("udp", &net.UDPAddr{IP: net.ParseIP(ip)})
-	if err != nil {
-		t.Fatalf("VF-INFRA no free port: %v", err)
+	vfPortsMu.Lock()
+	defer vfPortsMu.Unlock()
+	for try := 0; try < 200; try++ {
+		l, err := net.ListenUDP("udp", &net.UDPAddr{IP: net.ParseIP(ip)})
+		if err != nil {
+			t.Fatalf("VF-INFRA no free port: %v", err)
+		}
+		p := l.LocalAddr().(*net.UDPAddr).Port
+		key := fmt.Sprintf("%s:%d", ip, p)
+		tl, terr := net.Listen("tcp", key)
+		if terr == nil {
+			tl.Close()
+		}
+		l.Close()
+		if terr != nil || vfPortsGiven[key] {
+			continue
+		}
+		vfPortsGiven[key] = true
+		return p
 	}
-	p := l.LocalAddr().(*net.UDPAddr).Port
-	l.Close()
-	return p
+	t.Fatalf("VF-INFRA no port free for both UDP and TCP on %s", ip)
+	return 0
 }
 
 // waitSink polls the sinks until something arrives (or the deadline passes)
